@@ -21,7 +21,7 @@ CONDS = ['multivalue', 'multivalue_three_rows', 'onesided', 'onesided_three_rows
 INFO = {
     'engine': 'crosshair-tool 0.0.110 + z3; symx for the pipeline condition',
     'explanation': 'see level text',
-    'bounds': {'quick': {**{c: 'see precondition in harness/ch_c11.py' for c in CONDS}, 'pipeline': '3 rows x 4 columns, 2 symbolic multi-value cells from a pool of 4, all 48 flag combinations'},
+    'bounds': {'quick': {**{c: 'see precondition in harness/ch_c11.py' for c in CONDS}, 'pipeline': '3 rows x 4 columns, 2 symbolic multi-value cells from a pool of 4, all 80 flag combinations (incl. mappings mixing -> and <->)'},
                'thorough': {**{c: 'same conditions, longer budget' for c in CONDS}, 'pipeline': 'same'}},
     'outside': ['distributions of the random control features', 'values containing "&" in two-sided sub-features (the column name then does not identify the pair)', 'larger frames'],
     'assumptions': ['pandas replaced by sympd and set by a list-backed set inside CrossHair', 'mixed_rank_graph replaced by a recorder in the pipeline condition'],
@@ -32,7 +32,7 @@ _ch_jobs, _ch_run = chharness.make('harness.ch_c11', CONDS, {'quick': 240, 'thor
                                    [('outrank/core_ranking.py', ['compute_expanded_multivalue_features', 'compute_subfeatures'])])
 
 FA_POOL = ['a,b', 'b', '', 'a-c']
-FLAGS = [(ex, sub, order, noise, tr) for ex in ('False', 'fa') for sub in ('False', 'fa->fb', 'fb<->fa') for order in (1, 2) for noise in ('True', 'False') for tr in ('none', 'minimal')]
+FLAGS = [(ex, sub, order, noise, tr) for ex in ('False', 'fa') for sub in ('False', 'fa->fb', 'fb<->fa', 'fa->fb;fb<->fa', 'fb<->fa;fa->fb') for order in (1, 2) for noise in ('True', 'False') for tr in ('none', 'minimal')]
 COLS = ['fa', 'fb', 'num', 'label']
 
 
@@ -101,21 +101,17 @@ def check_pipeline(D, rows, flags):
     elif mv:
         probs.append('multi-value columns although expansion is off')
     sf = [c for c in names if c.startswith('SUBFEATURE') and ' AND ' not in c]
-    if sub == 'fa->fb':
-        exp = {}
+    exp = {}
+    entries = [] if sub == 'False' else sub.split(';')
+    if 'fa->fb' in entries:
         for v in dict.fromkeys(fb):
             exp['SUBFEATURE-fa&' + v] = [(fa[i] + 'AND' + fb[i]) if fb[i] == v else '' for i in range(n)]
-        if sorted(sf) != sorted(exp) or any(D[k].tolist() != v for k, v in exp.items() if k in names):
-            probs.append(f'one-sided sub-features {sf} do not carry fa+"AND"+fb exactly where fb has the value')
-    elif sub == 'fb<->fa':
-        exp = {}
+    if 'fb<->fa' in entries:
         for y in dict.fromkeys(fa):
             for x in dict.fromkeys(fb):
                 exp['SUBFEATURE|fb|fa-' + x + '&' + y] = ['1' if (fb[i] == x and fa[i] == y) else '0' for i in range(n)]
-        if sorted(sf) != sorted(exp) or any(D[k].tolist() != v for k, v in exp.items() if k in names):
-            probs.append(f'two-sided sub-features {sf} are not the indicators of their value pairs')
-    elif sf:
-        probs.append('sub-feature columns although the mapping is off')
+    if sorted(sf) != sorted(exp) or any(D[k].tolist() != v for k, v in exp.items() if k in names):
+        probs.append(f'sub-feature columns {sf} for the mapping {sub!r}: one-sided ones must carry fa+"AND"+fb exactly where fb has the value, two-sided ones must be the indicator of their value pair; expected {sorted(exp)}')
     ctrl = [c for c in names if c.startswith('CONTROL-') and ' AND ' not in c]
     if noise == 'True':
         if 'CONTROL-target' not in names or D['CONTROL-target'].tolist() != [r[3] for r in rows]:
